@@ -48,8 +48,17 @@ func Replay(path string) int {
 			Events []impl.Event
 			Stream string `json:"stream"`
 			N      int    `json:"events"`
+			Long   *int   `json:"long"`
+			Items  int    `json:"items"`
 		}
 		json.Unmarshal(rf.Case, &r)
+		if r.Long != nil {
+			msg = C10CheckTrace(c10LongTrace(*r.Long, r.Items))
+			if len(msg) > 1000 {
+				msg = msg[:1000] + " ..."
+			}
+			break
+		}
 		if r.Stream != "" {
 			fmt.Println("re-run: xv c10-stream", r.Stream, r.N)
 			return 1
